@@ -589,6 +589,33 @@ func Check() *common.Check {
 									c.Fail("reuse-differs:tree", fmt.Sprintf("a scanner used before answers %v, a new one %v", r1, r2))
 								}
 							}
+							// a result handed to the caller is the caller's: later scans (same or other scanner, tree or text) leave it alone
+							if t1, err := gosqlx.Parse(canon.SQL()); err == nil {
+								if t2, err := gosqlx.Parse(stmt.SQL()); err == nil {
+									kept := []*security.ScanResult{security.NewScanner().Scan(t1), security.NewScanner().ScanSQL(canon.SQL()), security.NewScanner().Scan(t2)}
+									var snaps []string
+									for _, r := range kept {
+										snaps = append(snaps, fmt.Sprintf("%+v", *r))
+									}
+									later := security.NewScanner()
+									later.Scan(t2)
+									later.ScanSQL(stmt.SQL())
+									later.Scan(t1)
+									later.ScanSQL(canon.SQL() + " OR 2=2 UNION SELECT NULL, NULL FROM t9; DROP TABLE t9 --")
+									for i, r := range kept {
+										if now := fmt.Sprintf("%+v", *r); now != snaps[i] {
+											ok = false
+											c.Fail("result-modified-by-later-scan", fmt.Sprintf("a ScanResult kept by the caller changed when other scans ran\n before: %s\n after:  %s", common.Trim(snaps[i], 500), common.Trim(now, 500)))
+											break
+										}
+										if msg := counts(r); msg != "" {
+											ok = false
+											c.Fail("counts:kept-result", msg)
+											break
+										}
+									}
+								}
+							}
 							// ... also when its threshold field is re-assigned between scans: every ordered pair of thresholds
 							if t1, err := gosqlx.Parse(canon.SQL()); err == nil {
 								if t2, err := gosqlx.Parse(stmt.SQL()); err == nil {
